@@ -40,3 +40,90 @@ func VerifH_C04_Filter(which int) {
 	verifapi.Assert(got == want, "filtered samples equal the reference")
 	verifapi.Cover(got != px, "some input is modified by the filter")
 }
+
+// vFields is a BoolSource handing out nondeterministic field values: the header parsers are checked
+// for what they do with every value of every field; the arithmetic decoding itself is a separate concern.
+type vFields struct{}
+
+func (vFields) GetBit(prob uint8) int { return int(verifapi.U8("bit") & 1) }
+func (vFields) GetValue(n int) uint32 { return verifapi.U32("value") & (1<<uint(n) - 1) }
+func (vFields) GetSigned(v int) int {
+	if verifapi.Bool("sign") {
+		return -v
+	}
+	return v
+}
+func (vFields) GetSignedValue(n int) int32 {
+	m := int32(verifapi.U32("magnitude") & (1<<uint(n) - 1))
+	if verifapi.Bool("sign") {
+		return -m
+	}
+	return m
+}
+func (vFields) EOF() bool { return false }
+
+// VerifH_C04_Quant: ParseQuant yields, for every base index, every delta and every per-segment
+// quantiser (absolute or relative), the dequantisation factors of the reference decoder
+// (RFC 6386 section 14.1 tables, x/image/vp8 copy).
+func VerifH_C04_Quant(useSegment int) {
+	var hdr SegmentHeader
+	hdr.UseSegment = useSegment == 1
+	hdr.AbsoluteDelta = verifapi.Bool("absolute")
+	for i := range hdr.Quantizer {
+		hdr.Quantizer[i] = int8(verifapi.I8("segq"))
+		verifapi.Assume(hdr.Quantizer[i] >= -127)
+		if hdr.AbsoluteDelta {
+			verifapi.Assume(hdr.Quantizer[i] >= 0)
+		}
+	}
+	// record the field values in the order ParseQuant reads them
+	base := int32(verifapi.U32("base") & 127)
+	var d [5]int32
+	for i := range d {
+		if verifapi.Bool("has_delta") {
+			d[i] = int32(verifapi.U32("delta")&15) * (1 - 2*int32(verifapi.U8("neg")&1))
+		}
+	}
+	src := &vScript{vals: []int32{base, d[0], d[1], d[2], d[3], d[4]}}
+	var dqm [NumMBSegments]QuantMatrix
+	ParseQuant(src, &hdr, dqm[:])
+	for i := 0; i < NumMBSegments; i++ {
+		q := base
+		if hdr.UseSegment {
+			if hdr.AbsoluteDelta {
+				q = int32(hdr.Quantizer[i])
+			} else {
+				q += int32(hdr.Quantizer[i])
+			}
+		}
+		want := ref.VerifDequant(q, d[0], d[1], d[2], d[3], d[4])
+		m := &dqm[i]
+		verifapi.Assert(m.Y1Mat[0] == int(want[0]) && m.Y1Mat[1] == int(want[1]), "luma DC/AC factors")
+		verifapi.Assert(m.Y2Mat[0] == int(want[2]) && m.Y2Mat[1] == int(want[3]), "second-order luma DC/AC factors")
+		verifapi.Assert(m.UVMat[0] == int(want[4]) && m.UVMat[1] == int(want[5]), "chroma DC/AC factors")
+	}
+	verifapi.Cover(true, "compared")
+}
+
+// vScript replays a fixed sequence of (optional signed) fields: GetValue(7) = base index, then for each
+// delta GetBit = present flag and GetSignedValue(4) = its value.
+type vScript struct {
+	vals []int32
+	pos  int
+}
+
+func (s *vScript) GetBit(prob uint8) int {
+	if s.vals[s.pos] != 0 {
+		return 1
+	}
+	s.pos++ // absent field: consumed by the flag alone
+	return 0
+}
+func (s *vScript) GetValue(n int) uint32 { v := s.vals[s.pos]; s.pos++; return uint32(v) }
+func (s *vScript) GetSigned(v int) int   { return v }
+func (s *vScript) GetSignedValue(n int) int32 {
+	v := s.vals[s.pos]
+	s.pos++
+	return v
+}
+func (s *vScript) EOF() bool { return false }
